@@ -20,6 +20,9 @@ Canonical(q) == Len(q) <= 1023 => Frame(q)[2] < 4          \* top six length bit
 GetBit(data, n) == BitAt(data, n + 1)
 \* len2bytes(payload): the two length bytes of the frame header
 Len2Bytes(q) == << Len(q) \div 256, Len(q) % 256 >>
+\* tow2utc(tow): time of day (h, m, s, ms) of GPS time-of-week `tow` milliseconds minus 18 leap seconds
+Tow2Utc(t) == LET x == (t + 86400000 - 18000) % 86400000
+              IN  << x \div 3600000, (x \div 60000) % 60, (x \div 1000) % 60, x % 1000 >>
 \* str(msg) shows the identity and then every public attribute, in decode order,
 \* as name=value; a stub ends with the Not_Yet_Implemented marker
 StrNames == [i \in 1 .. Len(attrs) |-> attrs[i].n]
